@@ -225,6 +225,89 @@ def class_level_stores():
     return sorted(set(sites))
 
 
+# ---- (c'') class-level slots that are READ through the method resolution order: a lazily filled slot of a class in use that another class in
+#      use would find, unshadowed, on its own lookup path (Model/ClassSlots.v: exactly the pairs the order-independence theorem excludes)
+SLOT_MARKERS = ('_XSD_TREE', 'XSD_TREE', '_SEARCH_FOR_ELEMENT', 'TYPE')
+
+
+def _truthy(v):
+    if isinstance(v, ast.Constant):
+        return bool(v.value)
+    if isinstance(v, (ast.List, ast.Tuple, ast.Set)):
+        return bool(v.elts)
+    if isinstance(v, ast.Dict):
+        return bool(v.keys)
+    return True
+
+
+def class_table():
+    classes = {}
+    for rel in lib_files():
+        for n in ast.walk(parse(rel)):
+            if isinstance(n, ast.ClassDef):
+                names = {}
+                for st in n.body:
+                    if isinstance(st, ast.Assign):
+                        for tg in st.targets:
+                            if isinstance(tg, ast.Name):
+                                names[tg.id] = _truthy(st.value)
+                    if isinstance(st, ast.AnnAssign) and isinstance(st.target, ast.Name) and st.value is not None:
+                        names[st.target.id] = _truthy(st.value)
+                bases = [b.id if isinstance(b, ast.Name) else (b.attr if isinstance(b, ast.Attribute) else None) for b in n.bases]
+                if None in bases:
+                    raise Fail('class %s: a base that is not a name' % n.name)
+                if n.name in classes and classes[n.name][0] != bases:
+                    raise Fail('two classes called %s with different bases' % n.name)
+                if n.name not in classes:
+                    classes[n.name] = (bases, names, rel, {f.name for f in n.body if isinstance(f, ast.FunctionDef)})
+    return classes
+
+
+def _c3(classes, c, memo):
+    if c in memo:
+        return memo[c]
+    bases = [b for b in classes[c][0] if b in classes]
+    seqs = [list(_c3(classes, b, memo)) for b in bases] + [list(bases)]
+    out = [c]
+    while any(seqs):
+        for sq in seqs:
+            if sq and not any(sq[0] in other[1:] for other in seqs):
+                h = sq[0]
+                break
+        else:
+            raise Fail('no linearisation for class ' + c)
+        out.append(h)
+        for sq in seqs:
+            if sq and sq[0] == h:
+                del sq[0]
+    memo[c] = out
+    return out
+
+
+def inherited_class_slots():
+    classes = class_table()
+    memo = {}
+    inst = {c for c, (_, names, _, _) in classes.items() if any(names.get(m) for m in SLOT_MARKERS)}
+    out = set()
+    for rel, fn, ln0, ln1, attr, ln, shape in class_level_stores():
+        owners = [c for c, (_, _, r, fns) in classes.items() if r == rel and fn in fns]
+        if not owners:
+            raise Fail('class-level store in %s.%s: no owning class found' % (rel, fn))
+        for K in owners:
+            fam = {c for c in classes if K in _c3(classes, c, memo)}
+            for D in sorted(fam & inst):
+                if classes[D][1].get(attr):
+                    continue
+                for B in _c3(classes, D, memo)[1:]:
+                    if B not in fam:
+                        continue
+                    if classes[B][1].get(attr):
+                        break
+                    if B in inst:
+                        out.add((attr, B, D))
+    return sorted(out)
+
+
 # ---- (c3) lazily initialised INSTANCE attributes (objects that live in class-level tables are shared by all threads and elements):
 #      every  `if self.<a> is None: ...`  whose body stores self.<a>; shape = one store of the final value on every path, or several
 def lazy_instance_stores():
@@ -1035,6 +1118,16 @@ def main():
     o.append('Inductive lazy_shape := LSingleStore | LLoopStore | LUnreferenced | LUnsafe.')
     o.append('Definition lazy_instance_stores : list (string * string * string * N * lazy_shape) := [' + ';\n '.join(
         '(%s, %s, %s, %d%%N, %s)' % (cq(f), cq(fn), cq(a), ln, 'L' + sh) for f, fn, _, _, a, ln, sh in lz) + '].')
+    try:
+        ics = inherited_class_slots()
+        side['inherited_class_slots'] = ics
+        o.append('(* (attribute, base class, derived class): both classes are instantiable, the base fills its class-level slot lazily and the derived class reads it through the MRO *)')
+        o.append('Definition tr_class_slots_ok := true.')
+        o.append('Definition inherited_class_slots : list (string * string * string) := [' + '; '.join('(%s, %s, %s)' % (cq(a), cq(b), cq(d)) for a, b, d in ics) + '].')
+    except Fail as ex:
+        side['inherited_class_slots'] = 'FAILED: ' + str(ex)
+        o.append('Definition tr_class_slots_ok := false.')
+        o.append('Definition inherited_class_slots : list (string * string * string) := [].')
     stm = shared_table_mutations()
     side['shared_table_mutations'] = stm
     o.append('(* in-place mutations of a value obtained from a class-level table getter (file, function, what): none allowed *)')
